@@ -21,6 +21,12 @@
 (*                          (memento.py:447-450; there it even raises TypeError)          *)
 (*   KF_AliasBlind          a memento-function rule only notices that its symbol no       *)
 (*                          longer holds a memento function, not that it holds ANOTHER one *)
+(*   KF_OneRulePerKey       rules are identified by <<type, parent, name of the target>>     *)
+(*                          (HashRule.__eq__ / __hash__ on key, code_hash.py:528-532): two    *)
+(*                          symbols of one body that hold objects of the same name give ONE    *)
+(*                          rule - whichever is met first - so only one of the two symbols,     *)
+(*                          and only one of the two objects, is hashed and watched                *)
+(*                          (open finding C13-/C01-two-symbols-one-function-one-rule)              *)
 EXTENDS Integers, Sequences, FiniteSets, TLC
 
 CONSTANTS FnNames,        \* names defined by `def`
@@ -30,7 +36,7 @@ CONSTANTS FnNames,        \* names defined by `def`
           RefChoices,     \* RefChoices[n]: the possible sets of names the body of n refers to
           KindChoices,    \* KindChoices[n] \subseteq {"mem", "plain"}
           MaxEd, MaxVal, MaxObjs, MaxEvents,
-          KF_DefaultsNotHashed, KF_AdoptCached, KF_AliasBlind
+          KF_DefaultsNotHashed, KF_AdoptCached, KF_AliasBlind, KF_OneRulePerKey
 
 VARIABLES text,     \* program text: n -> [kind, ed, dfl, refs]
           atarget,  \* program text: alias name -> function name it is assigned from
@@ -49,8 +55,9 @@ NoObj == 0
 IsFnBound(n) == n \in (FnNames \cup AliasNames) /\ bind[n] # NoObj
 ObjOf(n) == objs[bind[n]]
 
-CodeHash(o) == IF KF_DefaultsNotHashed THEN <<o.ed>> ELSE <<o.ed, o.dfl>>
-FullHash(o) == <<o.ed, o.dfl>>
+\* the hash of a function is the hash of its source: the edition of the body, the defaults, and the names it mentions
+CodeHash(o) == IF KF_DefaultsNotHashed THEN <<o.ed, o.refs>> ELSE <<o.ed, o.dfl, o.refs>>
+FullHash(o) == <<o.ed, o.dfl, o.refs>>
 
 -----------------------------------------------------------------------------
 (* rule collection (code_hash.py:605-647, 818-852): every reachable function o   *)
@@ -71,13 +78,17 @@ RuleFor(o, r, H(_)) ==      \* the rule object o's reference to name r gives ris
        [t |-> IF t.kind = "mem" THEN "M" ELSE "F", parent |-> o.name, sym |-> r, key |-> t.name,
         snap |-> bind[r], hash |-> H(t)]
 
-Rules(id, H(_)) ==
+AllRules(id, H(_)) ==
   {[t |-> "M", parent |-> "-", sym |-> "-", key |-> objs[id].name, snap |-> id, hash |-> H(objs[id])]}
   \cup UNION {{RuleFor(objs[x], r, H) : r \in objs[x].refs} : x \in Reach({id}, {})}
+SameKey(r1, r2) == r1.t = r2.t /\ r1.parent = r2.parent /\ r1.key = r2.key
+Rules(id, H(_)) ==
+  LET all == AllRules(id, H) IN
+  IF KF_OneRulePerKey THEN {r \in all : r = CHOOSE w \in {x \in all : SameKey(x, r)} : TRUE} ELSE all
 
 VersionOf(rs) == {<<r.t, r.parent, r.key, r.hash>> : r \in {x \in rs : x.hash # <<>>}}
 Recompute(id) == VersionOf(Rules(id, CodeHash))           \* what a from-scratch computation yields
-TrueVersion(id) == VersionOf(Rules(id, FullHash))          \* what the result really depends on
+TrueVersion(id) == VersionOf(AllRules(id, FullHash))          \* what the result really depends on
 
 (* HashRule.did_change per rule kind (code_hash.py:532-537,656-662,738-745,857-864)  *)
 DidChange(r) ==
@@ -145,7 +156,7 @@ Rebind(a, n) ==      \* a = n   (module attribute assigned an existing object)
   /\ UNCHANGED <<text, val, objs, gen, vcache, calc, rules, wrappers, memo, coherent, fresh>>
 
 Wrap(n) ==           \* MementoFunction(fn, register_fn = FALSE) around the function currently bound to n
-  /\ Tick([ev |-> "Wrap", n |-> n])
+  /\ Tick([ev |-> "Wrap", n |-> n, id |-> Len(objs) + 1])
   /\ Len(objs) < MaxObjs /\ bind[n] # NoObj /\ ObjOf(n).kind = "mem"
   /\ objs' = Append(objs, [ObjOf(n) EXCEPT !.reg = FALSE])
   /\ wrappers' = wrappers \cup {Len(objs) + 1}
@@ -158,7 +169,9 @@ QueryResult(id) ==     \* -> [ver, gen, vcache, calc, rules]
       hit == e # <<>> /\ e[1] = gen
       changed == hit /\ \E r \in rules[id] : DidChange(r)
       gen1 == IF changed THEN gen + 1 ELSE gen
-  IN IF hit /\ ~changed /\ calc[id] # <<>>
+  \* (the name-keyed cache entry may have been refreshed by ANOTHER object of that name: an object keeps its calculated
+  \*  version only if it is the cached one - memento.py after 46706b5)
+  IN IF hit /\ ~changed /\ calc[id] # <<>> /\ calc[id][1] = e[2]
      THEN [ver |-> calc[id][1], gen |-> gen, vcache |-> vcache, calc |-> calc, rules |-> rules]
      ELSE IF hit /\ ~changed /\ calc[id] = <<>> /\ KF_AdoptCached
      THEN [ver |-> e[2], gen |-> gen, vcache |-> vcache, calc |-> [calc EXCEPT ![id] = <<e[2]>>], rules |-> rules]
@@ -170,7 +183,7 @@ Queryable == {bind[n] : n \in {x \in FnNames : bind[x] # NoObj /\ ObjOf(x).kind 
 
 Query(id) ==
   LET q == QueryResult(id) IN
-  /\ Tick([ev |-> "Query", id |-> id, n |-> objs[id].name])
+  /\ Tick([ev |-> "Query", id |-> id, n |-> objs[id].name, wrapper |-> id \in wrappers, ver |-> q.ver])
   /\ gen' = q.gen /\ vcache' = q.vcache /\ calc' = q.calc /\ rules' = q.rules
   /\ coherent' = (coherent /\ q.ver = Recompute(id))        \* C13
   /\ UNCHANGED <<text, atarget, val, objs, bind, wrappers, memo, fresh>>
@@ -180,7 +193,7 @@ Call ==
   LET id == bind[RootName]
       q  == QueryResult(id)
       hits == {m \in memo : m.name = RootName /\ m.ver = q.ver}
-  IN /\ Tick([ev |-> "Call", served |-> hits # {}])
+  IN /\ Tick([ev |-> "Call", served |-> hits # {}, ver |-> q.ver])
      /\ gen' = q.gen /\ vcache' = q.vcache /\ calc' = q.calc /\ rules' = q.rules
      /\ IF hits # {}
         THEN fresh' = (fresh /\ \A m \in hits : m.built = TrueVersion(id)) /\ UNCHANGED memo      \* C01
@@ -193,7 +206,7 @@ NewProcess ==
   /\ DefineAll
   /\ UNCHANGED <<text, atarget, val, memo, coherent, fresh>>
 
-Next ==
+Mutate ==
   \/ \E n \in FnNames, e \in 0..1, d \in 0..1, rs \in UNION {RefChoices[x] : x \in FnNames}, k \in {"mem", "plain"} :
         /\ rs \in RefChoices[n] /\ k \in KindChoices[n]
         /\ text[n].ed + e <= MaxEd /\ text[n].dfl + d <= MaxEd
@@ -201,9 +214,11 @@ Next ==
   \/ \E v \in VarNames, x \in -1..MaxVal : SetVar(v, x)
   \/ \E a \in AliasNames, n \in FnNames \ {RootName} : Rebind(a, n)
   \/ \E n \in FnNames : Wrap(n)
+  \/ NewProcess
+Observe ==
   \/ \E id \in Queryable : Query(id)
   \/ Call
-  \/ NewProcess
+Next == Mutate \/ Observe
 
 Spec == Init /\ [][Next]_vars
 
